@@ -32,6 +32,7 @@ pub fn plan() -> Plan {
         thorough_histories: 80000,
         s5: None,
         enumerate_session_end: None,
+        enumerate_symbols: None,
     }
 }
 
